@@ -588,7 +588,7 @@ def child_history(desc: dict) -> dict:
         # ... and by the programs that fail in a fresh process (interpreter-wide state such as the
         # int/str digit limit or the recursion limit can make them convertible)
         for key in FAIL_KEYS:
-            if key != "fail:fail_big":
+            if True:  # including the 2 000-statement program: a leaked recursion limit makes it convertible
                 ev = run_op({"op": "conv", "prog": key, "obj": None})
                 ev["ext"] = True
                 ev["ext_prog"] = key
